@@ -509,7 +509,13 @@ func (c *Ctx) judgeFailureRegion(fn *ssa.Function, call *ssa.Call, e ssa.Value, 
 	okAll := true
 	detail := ""
 	for _, st := range starts {
-		seen, _ := ir.Reach(fn, st, eofCut)
+		fromPred := -1
+		if fe, ok := viaEdge[st.Index]; ok && tested {
+			fromPred = fe.From
+		}
+		// e is non-nil in the region; a merged error variable that carries e on the
+		// entering edge cannot test nil afterwards
+		seen, _ := ir.ReachFN(fn, st, fromPred, eofCut, map[ssa.Value]bool{e: true})
 		// when starting at the call's own block (untested error), the returns
 		// must carry e itself
 		for _, r := range ir.Returns(fn) {
